@@ -55,7 +55,13 @@ def check_delete(arg):
         acl.resequence(10, 10)
     if group_by:
         acl.group(group_by)
+        if numbered:
+            # blocks numbered and annotated after grouping: a block that remains keeps its own number (and note and identifier)
+            acl.resequence(10, 10)
+            for k_, g_ in enumerate(acl.items):
+                g_.note = f"block {k_}"
     inputs = dict(lines=lines, skip=list(skip), group_by=group_by, numbered=numbered)
+    before_blocks = {o.name: (o.sequence, o.note, o.uuid) for o in acl.items if isinstance(o, cisco_acl.AceGroup)}
     before = flat(acl)
     before_lines = [o.line for o in before]
     before_group = [(type(o).__name__, len(o.items) if isinstance(o, cisco_acl.AceGroup) else 0) for o in acl.items]
@@ -110,6 +116,10 @@ def check_delete(arg):
             bad("uncovered", f"removed entry {o.line!r} is not covered by any same-action entry above it in {before_lines}")
     if bool(acl.group_by) != bool(group_by):
         bad("grouping", "group_by changed")
+    for o in acl.items:
+        if isinstance(o, cisco_acl.AceGroup) and o.name in before_blocks and (o.sequence, o.note, o.uuid) != before_blocks[o.name]:
+            bad("block-number", f"block {o.name!r} had (sequence, note, uuid) = {before_blocks[o.name]} before and {(o.sequence, o.note, o.uuid)} after the removal")
+            break
     if not removed and [(type(o).__name__, len(o.items) if isinstance(o, cisco_acl.AceGroup) else 0) for o in acl.items] != before_group:
         bad("grouping", "grouping changed although nothing was removed")
     try:
@@ -196,6 +206,14 @@ def main(chk):
               "permit ip 10.0.0.0 0.0.255.255 any", "permit ip 10.0.0.0 0.0.0.255 any"]
     ncases = [(l, (), "", False) for n in (2, 3) for l in itertools.product(NALPHA, repeat=n)]
     cases += ncases
+    # TCP flags written after a log keyword above narrower entries without them; neq with three operands above / below the ports in its gaps
+    FALPHA = ["permit tcp any 10.0.0.0 0.0.0.255 log syn", "permit tcp any host 10.0.0.10 eq 443", "permit tcp any 10.0.0.0 0.0.0.255 syn log", "permit tcp any any log-input ack",
+              "permit tcp any host 10.0.0.10 ack", "permit tcp any host 10.0.0.10 syn", "deny tcp any 10.0.0.0 0.0.0.255 log-input syn", "deny ip any any"]
+    fcases = [(l, (), "", False) for n in (2, 3) for l in itertools.product(FALPHA, repeat=n)]
+    PALPHA = ["permit tcp any any neq 1 3 5", "permit tcp any any eq 2", "permit tcp any any neq 2", "permit tcp any any eq 4", "permit tcp any any neq 1 3 4",
+              "permit tcp any any range 2 4", "deny tcp any any"]
+    pcases = [(l, (), "", False) for n in (2, 3) for l in itertools.product(PALPHA, repeat=n)]
+    cases += fcases + pcases
     res = pmap(check_delete, cases)
     viol = 0
     for fails, _ in res:
@@ -207,7 +225,8 @@ def main(chk):
                     f"all ACLs of <= {3 if chk.tier == 'quick' else 4} items over the {len(C11.ALPHABET)}-kind alphabet (+ slice of length 4), flat / numbered / grouped by remark prefix; "
                     f"{len(gcases)} ACLs of 2..3 items over {len(GALPHA)} entries with address groups on both sides; {len(ecases)} ACLs of 2..3 items over {len(EALPHA)} entries "
                     "with empty port sets (lt 0, lt 1, gt 65535) above ordinary ones; "
-                    f"{len(ncases)} ACLs of 2..3 items over {len(NALPHA)} entries with 256-network wildcards (lowest mask bit 0)",
+                    f"{len(ncases)} ACLs of 2..3 items over {len(NALPHA)} entries with 256-network wildcards (lowest mask bit 0); {len(fcases)} over {len(FALPHA)} entries with TCP flags after "
+                    f"a log keyword; {len(pcases)} over {len(PALPHA)} entries with three-operand neq and the ports in its gaps",
                     viol, time.time() - t0, [list(acls[80])], exhaustive=True)
     t0 = time.time()
     mcases = ["cover-then-other", "other-then-cover", "edited-in-place"]
